@@ -23,7 +23,7 @@ From Coq Require Import List Arith Bool Lia Permutation.
 From LMBase Require Import Res ListX.
 From Coq Require Import ZArith.
 From LMBase Require Import IEEE.
-From LMScan Require Import ScanModel ScanLemmas ScanProofs ScanCheck CheckProofs ScanConcrete F32Order ConcreteProofs DiscLink DiscBridge.
+From LMScan Require Import ScanModel ScanLemmas ScanProofs ScanCheck CheckProofs ScanConcrete F32Order ConcreteProofs DiscLink DiscBridge ScanSwitch SwitchProofs.
 Import ListNotations.
 
 (* (1) Soundness, unconditional (any block size incl. 0, any wrap, any matrix; whatever
@@ -385,6 +385,45 @@ Proof.
   intros a e m _ _. exact (ce_score_rows_len v am a e m).
 Qed.
 
+(* (7) Builder setters called BETWEEN calls of next() (ScanSwitch.v: the setters only
+   overwrite a field, the scanner continues from its row and its buffered hits).  After k
+   calls of next() under (thr, B), lowering or keeping the threshold (thr' admits every
+   score thr admits) and changing the block size to ANY B' cannot make the iteration yield
+   a position twice, a padding cell or an inexact score: the k hits Y meet thr, all hits
+   Y ++ H meet thr', all positions are distinct.  (Raising the threshold is different: hits
+   buffered under the old threshold are still yielded, see C02_setters_raise_example.) *)
+Theorem C02_setters_between_calls_sound :
+  forall (T : Type) (geb : T -> T -> bool) (is_nan : T -> bool) (scale : T -> nat)
+         (score_position : nat -> res T) (score_rows : nat -> nat -> res dmatrix)
+         (R Lm B B' : nat) (thr thr' : T) (k fuel : nat) (Y H : list (nat * T)),
+    (forall a e m, a <= e -> e <= R -> score_rows a e = Ok m -> length m <= e - a) ->
+    (forall x, geb x thr = true -> geb x thr' = true) ->
+    switch_collect geb is_nan scale score_position score_rows R Lm B thr k B' thr' fuel = Ok (Y, H) ->
+    Forall (fun h => fst h < Lm /\ score_position (fst h) = Ok (snd h) /\ geb (snd h) thr = true) Y /\
+    Forall (fun h => fst h < Lm /\ score_position (fst h) = Ok (snd h) /\ geb (snd h) thr' = true) (Y ++ H) /\
+    NoDup (map fst (Y ++ H)).
+Proof.
+  intros T geb is_nan scale score_position score_rows R Lm B B' thr thr' k fuel Y H Hlen Hle Hs.
+  exact (switch_collect_sound geb is_nan scale score_position score_rows R Lm Hlen B thr k B' thr' fuel Y H Hle Hs).
+Qed.
+
+(* the same for the extracted binary32 text the driver replays (every arm, any wrap, any
+   matrix, any block sizes incl. 0): no hypothesis left but "thr' <= thr" *)
+Theorem C02_concrete_setters_between_calls_sound :
+  forall (v : cenv) (am : arm) (thr thr' : F32.t) (B B' k : nat) (Y H : list (nat * F32.t)),
+    F32.ge thr thr' = true ->
+    ce_switch_collect v am thr B k thr' B' = Ok (Y, H) ->
+    Forall (fun h => fst h < ce_Lm v /\ ce_score_position v (fst h) = Ok (snd h) /\
+                     F32.ge (snd h) thr' = true) (Y ++ H) /\
+    NoDup (map fst (Y ++ H)).
+Proof.
+  intros v am thr thr' B B' k Y H Hge Hs.
+  destruct (C02_setters_between_calls_sound F32.t F32.ge F32.is_nan (ce_scale v) (ce_score_position v)
+              (ce_score_rows v am) (ce_R v) (ce_Lm v) B B' thr thr' k (ce_fuel v) Y H) as (_ & A & N); auto.
+  - intros a e m _ _. exact (ce_score_rows_len v am a e m).
+  - intros x Hx. exact (F32_ge_trans x thr thr' Hx Hge).
+Qed.
+
 Check C02_scan_sound :
   forall (T : Type) (geb : T -> T -> bool) (is_nan : T -> bool) (scale : T -> nat)
          (score_position : nat -> res T) (score_rows : nat -> nat -> res dmatrix)
@@ -531,3 +570,22 @@ Example C02_concrete_well_conditioned_nonvacuous :
   wf_input 5 32 Ex.pssm Ex.sq 2 /\ c_env 5 32 Ex.pssm Ex.sq 2 = Ok Ex.env /\
   finite_nonwild 5 Ex.pssm /\ well_conditioned 5 Ex.pssm (ce_dm Ex.env).
 Proof. split; [exact Ex.wf|]. split; [exact Ex.env_ok|]. split; [exact Ex_finite|exact Ex_well_conditioned]. Qed.
+
+
+(* setters between calls on the toy instance.  After 2 calls of next() under (thr 7, B 1)
+   the threshold is lowered to 3 and the block size set to 3: the buffered hit follows, then
+   rows 2..3 are scanned as one block under the new threshold; rows 0..1 are not scanned again
+   (positions 0, 4, 8 scoring 5, 6, 3 would meet the new threshold and are NOT yielded: the
+   theorem claims soundness, not completeness), nothing is yielded twice. *)
+Example C02_setters_lower_example :
+  switch_collect Toy.geb Toy.is_nan Toy.scale Toy.score_position (Toy.score_rows 4) 4 Toy.Lm 1 7 2 3 3 11
+  = Ok ([(9, 7); (5, 9)], [(1, 9); (7, 8); (3, 7)]).
+Proof. vm_compute. reflexivity. Qed.
+
+(* the hypothesis "thr' admits what thr admits" is needed: raising the threshold from 7 to 9
+   after one call under B = 4 (all five hits of the single block are buffered) still yields
+   the buffered hits (3, 7) and (9, 7), which are below the new threshold *)
+Example C02_setters_raise_example :
+  switch_collect Toy.geb Toy.is_nan Toy.scale Toy.score_position (Toy.score_rows 4) 4 Toy.Lm 4 7 1 4 9 11
+  = Ok ([(7, 8)], [(3, 7); (9, 7); (5, 9); (1, 9)]).
+Proof. vm_compute. reflexivity. Qed.
